@@ -70,6 +70,24 @@ pub fn group_ops(name: &str) -> Result<(String, String, Vec<[f64; 6]>, Vec<Matri
     Ok((g.name.to_string(), format!("{:?}", g.family), ops, mats))
 }
 
+/// C16 is about the tables, whatever else the process did before: a user-defined group that carries the LABEL of
+/// a built-in one (labels are free public strings) gets its own operations, and the built-in table is the
+/// plane group afterwards as before.
+fn c16_after_custom(name: &str) -> String {
+    use packing::wallpaper::WallpaperGroup;
+    let v: WallpaperGroups = match name.parse() { Ok(v) => v, Err(_) => return "ok holds invalid-request".to_string() };
+    let g = match get_wallpaper_group(v) { Ok(g) => g, Err(e) => return format!("ok FAILS lookup-error {}", shex(&e.to_string())) };
+    let strings = vec!["x,y", "x+1/2,-y", "-y,x"];
+    let custom = WallpaperGroup { name: g.name, family: g.family, wyckoff_str: strings.clone() };
+    let w = match WyckoffSite::new(&custom) { Ok(w) => w, Err(e) => return format!("ok FAILS custom-group-error {}", shex(&e.to_string())) };
+    let want: Vec<Matrix3<f64>> = strings.iter().filter_map(|s| Transform2::from_operations(s).ok()).map(|t| mat_of(&t)).collect();
+    let got: Vec<Matrix3<f64>> = w.symmetries.iter().map(mat_of).collect();
+    if got != want {
+        return format!("ok FAILS a user-defined group labelled {} did not get the operations of its own strings", name);
+    }
+    c16_group(name)
+}
+
 /// C16: the real table of a group against the reference and the group axioms.
 fn c16_group(name: &str) -> String {
     let (label, family, ops, mats) = match group_ops(name) {
@@ -1095,8 +1113,9 @@ fn symmetry_of_state(st: &crate::state::AnyState) -> Option<String> {
     if !(det.abs() > 0.0) {
         return Some("ok holds degenerate-cell".to_string());
     }
-    if cart.len() != rops.len() {
-        return Some(format!("ok FAILS {} copies for a group of order {}", cart.len(), rops.len()));
+    let nsites = v["occupied_sites"].as_array()?.len();
+    if cart.len() != rops.len() * nsites {
+        return Some(format!("ok FAILS {} copies for {} occupied site(s) of a group of order {}", cart.len(), nsites, rops.len()));
     }
     let scale = 1.0 + l.abs();
     for g in rops.iter() {
@@ -1665,6 +1684,7 @@ pub fn oracle(t: &[&str]) -> Option<String> {
         "c14_lattice" => c14_lattice(&t[1..]),
         "c15_site" => c15_site(&t[1..]),
         "c16_group" => Some(c16_group(t.get(1)?)),
+        "c16_after_custom" => Some(c16_after_custom(t.get(1)?)),
         "c17_denote" => c17_denote(&t[1..]),
         "c17_total" => c17_total(&t[1..]),
         _ => None,
